@@ -39,7 +39,7 @@ fn targeted(rng: &mut Rng, b: &mut Vec<u8>) -> &'static str {
     }
     let streams: Vec<usize> = (1..n_ent).filter(|i| b.get(ent_off(*i) + 66) == Some(&2)).collect();
     let fat_off = |id: usize| l.fat_sectors.get(id / (s / 4)).map(|fs| (fs + 1) * s + 4 * (id % (s / 4)));
-    match rng.below(11) {
+    match rng.below(13) {
         0 => {
             // the mini stream's length
             let cur = rd32(b, ent_off(0) + 120);
@@ -95,6 +95,30 @@ fn targeted(rng: &mut Rng, b: &mut Vec<u8>) -> &'static str {
                 }
             }
             "name-illegal-unit"
+        }
+        10 | 11 => {
+            // two chains joined: a cell that holds a pointer is redirected to the head of another chain
+            // (the MiniFAT chain, the mini stream, the directory chain or another stream's) - heads are
+            // pointed at by nothing, so the pointee check of open still passes; shrinking or removing
+            // the first stream then cuts or frees the other chain under its owner
+            let heads: Vec<u32> = {
+                let mut h = vec![rd32(b, 60), rd32(b, 48), rd32(b, ent_off(0) + 116)];
+                for i in &streams {
+                    if rd32(b, ent_off(*i) + 120) >= 4096 {
+                        h.push(rd32(b, ent_off(*i) + 116));
+                    }
+                }
+                h.into_iter().filter(|x| (*x as usize) < l.nsec).collect()
+            };
+            let cells: Vec<usize> = (0..l.nsec).filter(|id| fat_off(*id).map(|o| (rd32(b, o) as usize) < l.nsec).unwrap_or(false)).collect();
+            if !heads.is_empty() && !cells.is_empty() {
+                let id = *rng.pick(&cells);
+                let t = *rng.pick(&heads);
+                if t as usize != id {
+                    wr32(b, fat_off(id).unwrap(), t);
+                }
+            }
+            "chain-join"
         }
         _ => {
             // header: MiniFAT start / count
